@@ -397,6 +397,18 @@ func injectFault(rt *rapid.T, g *exprGen, e *tw.Expr) (*tw.Expr, string) {
 	case "unknown-prop":
 		f = tw.Dot(tw.Obj([]string{"a"}, []*tw.Expr{intLit(1)}), "zz")
 	}
+	// the faulty construct is sometimes the index (or the base) of an index
+	// expression whose other side is an empty array: both sides are evaluated
+	switch rapid.IntRange(0, 9).Draw(rt, "faultPlace") {
+	case 0:
+		f = tw.Index(tw.Arr(), f)
+		kind += "-as-index-of-empty"
+	case 1:
+		if g.env != nil && len(g.env.Model["ai"].Arr) == 0 && g.env.Model["ai"].K == refint.KArr {
+			f = tw.Index(tw.Var("ai"), f)
+			kind += "-as-index-of-empty"
+		}
+	}
 	// choose a node on a path that is certainly evaluated (strict positions only)
 	target := e
 	for {
